@@ -12,6 +12,9 @@
       * `FluidParticle.K` (Model.Particle09, cache threaded explicitly): every query's answer is
         independent of the cache contents / of the history under `Stable` (single-phase particle,
         or flash result independent of the warm start); refuted without that hypothesis.
+  Both models carry the CODE VARIANT of their defect site (`aliased` for `coefs`, `revisit` for
+  `update_num_oil_elements`): the statements are REFUTED for the code as first read and PROVED at full
+  strength for the repaired text; the harness determines which variant the tree under test is.
   (b) `blowout.Blowout` (Model.Blowout): `refresh (foldl apply (construct p) ops) =
       construct (final p ops)` under the hypothesis that the update sequence does not change the
       constructor-only flow-rate convention `q_type`; REFUTED without it.
@@ -34,25 +37,31 @@ variable {α β : Type}
 
 /-- frame theorem (partial: `calc_delta ≤ 0` only): without group contributions a query leaves the
     caller's interaction matrix untouched -/
-theorem query_frame_partial (eos : Mat α → β) (gc : Nat → Nat → α) (nc : Nat) (store : Mat α) :
-    (query eos false gc nc store).2 = store := rfl
+theorem query_frame_partial (eos : Mat α → β) (aliased : Bool) (gc : Nat → Nat → α) (nc : Nat) (store : Mat α) :
+    (query eos aliased false gc nc store).2 = store := rfl
+
+/-- **frame theorem, FULL statement — for the repaired code** (`coefs` works on a copy): no query,
+    with or without group contributions, alters the caller's interaction matrix -/
+theorem query_frame (eos : Mat α → β) (calcDelta : Bool) (gc : Nat → Nat → α) (nc : Nat) (store : Mat α) :
+    (query eos false calcDelta gc nc store).2 = store := by
+  cases calcDelta <;> rfl
 
 /-- what a query with `calc_delta > 0` does to the caller's matrix: every off-diagonal entry
     (both indices < nc) is REPLACED by the group-contribution value of the query's temperature;
     diagonal entries and entries outside the nc × nc block are kept -/
 theorem query_store_after (eos : Mat α → β) (gc : Nat → Nat → α) (nc : Nat) (store : Mat α) (a b : Nat) :
-    (query eos true gc nc store).2 a b =
+    (query eos true true gc nc store).2 a b =
       if a < b ∧ b < nc then gc a b else if b < a ∧ a < nc then gc b a else store a b := by
   simp only [query, coefsDelta, if_true]
   exact writeAll_apply gc nc store a b
 
-/-- **the frame property is FALSE for the code as written** (negation witness: two components,
+/-- **the frame property is FALSE for the code as written** (`aliased = true`; negation witness: two components,
     zero matrix, group-contribution value 1/100 for the pair): after one query the object's matrix
     holds 1/100 off the diagonal.  Maps to `FluidMixture(..., delta_groups=...)`: `delta` changes
     from zeros to the group-contribution values after one `density()` call. -/
 theorem not_query_frame :
     ¬ ∀ (eos : Mat ℝ → ℝ) (calcDelta : Bool) (gc : Nat → Nat → ℝ) (nc : Nat) (store : Mat ℝ),
-        (query eos calcDelta gc nc store).2 = store := by
+        (query eos true calcDelta gc nc store).2 = store := by
   intro h
   have := congrFun (congrFun (h (fun _ => 0) true (fun _ _ => 1 / 100) 2 (fun _ _ => 0)) 0) 1
   rw [query_store_after] at this
@@ -61,10 +70,10 @@ theorem not_query_frame :
 /-- the matrix the mixing rule USES does not depend on what earlier queries left in the store:
     with group contributions it is determined by the diagonal / outer part of the ORIGINAL matrix
     and the present temperature; without, the store never changes -/
-theorem store_after_history (calcDelta : Bool) (nc : Nat) (store : Mat α)
+theorem store_after_history (aliased calcDelta : Bool) (nc : Nat) (store : Mat α)
     (qs : List ((Nat → Nat → α) × (Mat α → β))) :
-    (runQueries calcDelta nc store qs).2 = store ∨
-      ∃ g, calcDelta = true ∧ (runQueries calcDelta nc store qs).2 = writeAll g nc store := by
+    (runQueries aliased calcDelta nc store qs).2 = store ∨
+      ∃ g, calcDelta = true ∧ (runQueries aliased calcDelta nc store qs).2 = writeAll g nc store := by
   induction qs generalizing store with
   | nil => exact Or.inl rfl
   | cons q qs ih =>
@@ -77,19 +86,36 @@ theorem store_after_history (calcDelta : Bool) (nc : Nat) (store : Mat α)
       · exact h
       · exact absurd h (by simp)
     | true =>
-      right
-      simp only [runQueries, query, coefsDelta, if_true]
-      rcases ih (writeAll q.1 nc store) with h | ⟨g, _, h⟩
-      · exact ⟨q.1, by simp, h⟩
-      · exact ⟨g, by simp, by rw [h, writeAll_absorb]⟩
+      cases aliased with
+      | false =>
+        left
+        simp only [runQueries, query, coefsDelta, if_true, Bool.false_eq_true, if_false]
+        rcases ih store with h | ⟨g, _, h⟩
+        · exact h
+        · -- the repaired code never changes the store: the second alternative collapses
+          have hst : ∀ (st : Mat α) (l : List ((Nat → Nat → α) × (Mat α → β))),
+              (runQueries false true nc st l).2 = st := by
+            intro st l
+            induction l generalizing st with
+            | nil => rfl
+            | cons a l ihl =>
+              simp only [runQueries, query, coefsDelta, if_true, Bool.false_eq_true, if_false]
+              exact ihl st
+          exact hst store qs
+      | true =>
+        right
+        simp only [runQueries, query, coefsDelta, if_true]
+        rcases ih (writeAll q.1 nc store) with h | ⟨g, _, h⟩
+        · exact ⟨q.1, by simp, h⟩
+        · exact ⟨g, by simp, by rw [h, writeAll_absorb]⟩
 
-/-- **repeat-call equality for mixture queries**: the answer of a query asked after ANY history of
-    queries on the same object equals its answer on the fresh object -/
-theorem query_answer_indep_of_history (calcDelta : Bool) (nc : Nat) (store : Mat α)
+/-- **repeat-call equality for mixture queries** (either code variant): the answer of a query asked
+    after ANY history of queries on the same object equals its answer on the fresh object -/
+theorem query_answer_indep_of_history (aliased calcDelta : Bool) (nc : Nat) (store : Mat α)
     (qs : List ((Nat → Nat → α) × (Mat α → β))) (gc : Nat → Nat → α) (eos : Mat α → β) :
-    (query eos calcDelta gc nc (runQueries calcDelta nc store qs).2).1 =
-      (query eos calcDelta gc nc store).1 := by
-  rcases store_after_history calcDelta nc store qs with h | ⟨g, hc, h⟩
+    (query eos aliased calcDelta gc nc (runQueries aliased calcDelta nc store qs).2).1 =
+      (query eos aliased calcDelta gc nc store).1 := by
+  rcases store_after_history aliased calcDelta nc store qs with h | ⟨g, hc, h⟩
   · rw [h]
   · subst hc
     rw [h]
@@ -193,9 +219,10 @@ theorem cache_leaks_without_stability :
               | none => (([1] : List ℝ), ([0] : List ℝ), (some [1] : KSt ℝ))
               | some _ => (([0] : List ℝ), ([1] : List ℝ), (some [1] : KSt ℝ)) }
   have hfp : ¬ (mixedPar.fpType < 2) := by simp [mixedPar]
+  have hcode : mixedPar.code = Code.asWritten := rfl
   have h1 : density L mixedPar none [1] 300 1 = ((1 : ℝ), (some [1] : KSt ℝ)) := by
     simp only [density, densityOfFlash, bind, pure, hfp, if_false, L, constLib, sum1, not_isZero_one,
-      indiv_branch_0, if_true]
+      hcode, indiv_branch_0, if_true]
   have h2 : density L mixedPar (some [1]) [1] 300 1 = ((2 : ℝ), (some [1] : KSt ℝ)) := by
     simp only [density, densityOfFlash, bind, pure, hfp, if_false, L, constLib, sum0]
     rw [if_pos isZero_zero]
@@ -212,23 +239,23 @@ section Blowout
 open TamocV.Model.Blowout
 variable {α O R : Type}
 
-/-- **C19 (b), partial**: for every library, every parameter set and EVERY sequence of update calls
-    (all 13 methods, any length), the object refreshed the way `simulate()` does equals the object
-    constructed directly with the final parameters — PROVIDED the sequence leaves the
-    constructor-only flow-rate convention unchanged (`num_oil_elements` is positive before iff it
-    is positive after).  Missing for the full statement: exactly that proviso, see
-    `not_blowout_refines_fresh`. -/
+/-- **C19 (b), partial — code as written** (`apply false`): for every library, every parameter set
+    and EVERY sequence of update calls (all 13 methods, any length), the object refreshed the way
+    `simulate()` does equals the object constructed directly with the final parameters — PROVIDED the
+    sequence leaves the constructor-only flow-rate convention unchanged (`num_oil_elements` is
+    positive before iff it is positive after).  Missing for the full statement: exactly that
+    proviso, see `not_blowout_refines_fresh`. -/
 theorem blowout_refines_fresh_partial (lib : Lib α O R) (p : Params α) (ops : List (Op α))
     (hq : qTypeOf (final p ops) = qTypeOf p) :
-    refresh lib (ops.foldl apply (construct lib p)) = construct lib (final p ops) := by
+    refresh lib (ops.foldl (apply false) (construct lib p)) = construct lib (final p ops) := by
   cases ops with
   | nil => simp [refresh, construct, doUpdate, final]
   | cons op ops =>
-    have hu := foldl_update_false (construct lib p) (op :: ops) (Or.inl (by simp))
-    have hp := foldl_p (construct lib p) (op :: ops)
+    have hu := foldl_update_false false (construct lib p) (op :: ops) (Or.inl (by simp))
+    have hp := foldl_p false (construct lib p) (op :: ops)
     have hqt := foldl_qType (construct lib p) (op :: ops)
-    have hok := foldl_oilOK lib _ (op :: ops) (construct_oilOK lib p)
-    generalize (List.foldl apply (construct lib p) (op :: ops)) = s at *
+    have hok := foldl_oilOK false lib _ (op :: ops) (construct_oilOK lib p)
+    generalize (List.foldl (apply false) (construct lib p) (op :: ops)) = s at *
     have hp' : s.p = final p (op :: ops) := by rw [hp]; rfl
     have hqt' : s.qType = qTypeOf p := by rw [hqt]; rfl
     unfold refresh
@@ -241,6 +268,32 @@ theorem blowout_refines_fresh_partial (lib : Lib α O R) (p : Params α) (ops : 
       · simp [ho, hp', hqt', hq]
       · simp [hp', hqt', hq]
 
+/-- **C19 (b), FULL statement — for the repaired code** (`apply true`: `update_num_oil_elements`
+    re-evaluates `q_type` and sets `new_oil` when it changes): for every library, every parameter
+    set and every sequence of update calls, the refreshed object IS the object constructed with the
+    final parameters. -/
+theorem blowout_refines_fresh (lib : Lib α O R) (p : Params α) (ops : List (Op α)) :
+    refresh lib (ops.foldl (apply true) (construct lib p)) = construct lib (final p ops) := by
+  cases ops with
+  | nil => simp [refresh, construct, doUpdate, final]
+  | cons op ops =>
+    have hu := foldl_update_false true (construct lib p) (op :: ops) (Or.inl (by simp))
+    have hp := foldl_p true (construct lib p) (op :: ops)
+    have hqt := foldl_qType_revisit (construct lib p) (op :: ops) rfl
+    have hok := foldl_oilOK true lib _ (op :: ops) (construct_oilOK lib p)
+    generalize (List.foldl (apply true) (construct lib p) (op :: ops)) = s at *
+    have hp' : s.p = final p (op :: ops) := by rw [hp]; rfl
+    have hqt' : s.qType = qTypeOf (final p (op :: ops)) := by rw [hqt, hp']
+    unfold refresh
+    rw [if_neg (by simp [hu])]
+    unfold OilOK at hok
+    unfold construct doUpdate
+    rcases hok with hn | ho
+    · simp [hn, hp', hqt']
+    · cases hn : s.newOil
+      · simp [ho, hp', hqt']
+      · simp [hp', hqt']
+
 /-- the flags after a refresh are those of a fresh object -/
 theorem refresh_flags (lib : Lib α O R) (s : State α O R) (h : s.update = true → s.newOil = false) :
     (refresh lib s).update = true ∧ (refresh lib s).newOil = false := by
@@ -249,27 +302,27 @@ theorem refresh_flags (lib : Lib α O R) (s : State α O R) (h : s.update = true
   · rename_i hu; exact ⟨hu, h hu⟩
   · exact ⟨rfl, rfl⟩
 
-/-- `q_type` is chosen once: no update sequence changes it -/
+/-- code as written: `q_type` is chosen once, no update sequence changes it -/
 theorem qType_constructor_only (lib : Lib α O R) (p : Params α) (ops : List (Op α)) :
-    (refresh lib (ops.foldl apply (construct lib p))).qType = qTypeOf p := by
+    (refresh lib (ops.foldl (apply false) (construct lib p))).qType = qTypeOf p := by
   have h1 := foldl_qType (construct lib p) ops
   unfold refresh
   split
   · rw [h1]; rfl
-  · show (List.foldl apply (construct lib p) ops).qType = _
+  · show (List.foldl (apply false) (construct lib p) ops).qType = _
     rw [h1]; rfl
 
-/-- **C19 (b) is FALSE of the code as written** (negation witness: one call
+/-- **C19 (b) is FALSE of the code as written** (`apply false`; negation witness: one call
     `update_num_oil_elements(0)`): the refreshed object keeps `q_type = 1` and the oil / mass
     fluxes computed for the OIL flow rate, the fresh object has `q_type = 0` and the mass fluxes
     for the GAS flow rate -/
 theorem not_blowout_refines_fresh :
     ¬ ∀ (lib : Lib ℝ Nat Nat) (p : Params ℝ) (ops : List (Op ℝ)),
-        refresh lib (ops.foldl apply (construct lib p)) = construct lib (final p ops) := by
+        refresh lib (ops.foldl (apply false) (construct lib p)) = construct lib (final p ops) := by
   intro h
   have := congrArg State.oil (h witnessLib witnessParams [Op.numOilElements 0])
-  simp [refresh, construct, doUpdate, apply, final, Op.onParams, Op.setsNewOil, witnessLib, witnessParams,
-    qTypeOf] at this
+  simp [refresh, construct, doUpdate, apply, final, Op.onParams, Op.setsNewOil, Op.isNumOil, witnessLib,
+    witnessParams, qTypeOf] at this
 
 /-- the hypothesis of the partial theorem is satisfiable by a non-trivial history that switches
     the gas bins to zero and back, changes the flow rate, the substance and the depth -/
